@@ -126,13 +126,13 @@ structure RetryPolicy where
   maxBackoff : Option (List Char)
   backoffMultiplier : Option Rat      -- a JSON number
   codes : List String                 -- `retryableStatusCodes`
-deriving Repr
+deriving Repr, DecidableEq
 
 structure MethodConfig where
   names : List Name
   timeout : Option (List Char)
   retryPolicy : Option RetryPolicy
-deriving Repr
+deriving Repr, DecidableEq
 
 /-- `opts.retry["methodConfig"]` -/
 abbrev ServiceConfig := List MethodConfig
